@@ -29,11 +29,11 @@ META = {
     "text": "Machine-checked theorems about a Gallina model of FFIManager (library/symbol registration, callFunction, callForeignFunction) and of the two "
             "FFI call sites of call_impl.cpp, whose signature if-chain is regenerated from the current C++ text on every run: every row casts the void* to "
             "exactly the C type of the declared signature (int/long/double/void), arguments reach the native function in declaration order, int arguments "
-            "exact in the 32-bit range and explicitly narrowed outside, long and double results bit-exact, signatures outside the table never call and "
-            "(non-void, qualified path) are reported with exit 1, in every history every native call enters an existing symbol of an existing library. Six laws "
-            "are refuted on the faithful model (known findings). The tie runs generated `use foreign.echo` programs on the real binary against an echo library "
+            "exact in the 32-bit range and explicitly narrowed outside, integer arguments to double parameters exact below 2^53, long and double results "
+            "bit-exact, signatures outside the table (any return type, float returns and pointer parameters included) never call and are reported with exit 1 on "
+            "both call paths, in every history every native call enters an existing symbol of an existing library through its registered type. The tie runs generated `use foreign.echo` programs on the real binary against an echo library "
             "compiled by the check: recorded 64-bit patterns = Cb-visible results = extracted model = property reading, for every supported signature x boundary "
-            "values and for all 474 unsupported signatures of arity 0-4 over {int,long,double}, missing library, missing symbol, arity mismatch.",
+            "values and for all 474 unsupported signatures of arity 0-4 over {int,long,double} on both paths, float/pointer declarations, missing library, missing symbol, arity mismatch.",
     "note": "Trusted: Coq kernel incl. vm_compute (table checks, refutation witnesses), no axioms (Print Assumptions: closed); the 150-line regex translator "
             "(prints what it recognised into the evidence; unrecognised shape -> stale table, correspondence only); extraction ExtrOcamlBasic+ExtrOcamlString; "
             "the hand-written model of registration and of the call sites is tied by differential testing only; that a correctly typed call passes bits "
@@ -42,7 +42,7 @@ META = {
 
 CT = {"i": "int", "l": "long", "d": "double", "v": "void", "f": "float"}
 CBT = {"i": "int", "l": "long", "d": "double", "v": "void", "f": "float"}
-TYNAME = {"TInt": "i", "TLong": "l", "TDouble": "d", "TVoid": "v", "TFloat": "f", "TOther": "o", "TUnknown": "u"}
+TYNAME = {"TInt": "i", "TLong": "l", "TDouble": "d", "TVoid": "v", "TFloat": "f", "TPointer": "p", "TOther": "o", "TUnknown": "u"}
 M64 = (1 << 64) - 1
 MIXC = 0x9E3779B97F4A7C15
 LIBS = ["echo", "echob"]          # module name -> lib<name>.so built by the check
@@ -147,19 +147,24 @@ def echo_py(ret, reply, rec_args):
     return ("void",)
 
 
+PTR_CT = {"I": "int *", "L": "long *", "D": "double *"}
+PTR_SIGS = [("i", "I"), ("i", "iI"), ("i", "Ii"), ("l", "I"), ("d", "D"), ("v", "I"), ("d", "dD")]
+
+
 def gen_fn(name, ret, params, reply):
-    decl = ", ".join("%s a%d" % (CT[t], k) for k, t in enumerate(params)) or "void"
+    decl = ", ".join("%s a%d" % (PTR_CT[t] if t.isupper() else CT[t], k) for k, t in enumerate(params)) or "void"
     body = ["c20_rec r; c20_begin(&r, \"%s\");" % name]
     for k, t in enumerate(params):
-        body.append("c20_%s(&r, a%d);" % (t, k))
+        body.append("c20_l(&r, (long)(intptr_t)a%d);" % k if t.isupper() else "c20_%s(&r, a%d);" % (t, k))
     body.append("c20_end(&r);")
     if reply is None:
         body.append("u64 w = MIXC;")
         for k, t in enumerate(params):
-            body.append("w += %dULL * W%s(a%d);" % (2 * k + 3, t.upper(), k))
+            body.append("w += %dULL * WL((long)(intptr_t)a%d);" % (2 * k + 3, k) if t.isupper() else "w += %dULL * W%s(a%d);" % (2 * k + 3, t.upper(), k))
     else:
         body.append("u64 w = 0x%sULL;" % reply)
-    body.append({"v": "(void)w;", "i": "return c20_ret_i(w);", "l": "return c20_ret_l(w);", "d": "return c20_ret_d(w);"}[ret])
+    body.append({"v": "(void)w;", "i": "return c20_ret_i(w);", "l": "return c20_ret_l(w);", "d": "return c20_ret_d(w);",
+                 "f": "(void)w; return 1.5f;"}[ret])
     return "%s %s(%s) { %s }" % (CT[ret], name, decl, " ".join(body))
 
 
@@ -187,8 +192,14 @@ def gen_echo_source(supported):
             n = "k%d_%s_%s" % (j, r, ps)
             syms[n] = (r, ps, c)
             out.append(gen_fn(n, r, ps, c))
-    syms["e_f_d"] = ("f", "d", None)
-    syms["e_ptr"] = ("i", "I", None)
+    for ps in all_param_lists(2):
+        n = "e_f_%s" % ps
+        syms[n] = ("f", ps, None)
+        out.append(gen_fn(n, "f", ps, None))
+    for (r, ps) in PTR_SIGS:
+        n = "e_%s_%s" % (r, ps)
+        syms[n] = (r, ps, None)
+        out.append(gen_fn(n, r, ps, None))
     syms["probe"] = ("d", "d", None)
     return "\n".join(out) + "\n", syms
 
@@ -230,6 +241,9 @@ FAKE_DECLS = {"nosuch_i_ii": ("i", "ii", None), "nosuch_d_d": ("d", "d", None), 
 
 
 def cb_arg_expr(k, j, a, pre):
+    if a["k"] == "p":
+        pre.append("  %s q%d_%d = %s;" % (CBT[a["base"]], k, j, "5" if a["base"] != "d" else "5.5"))
+        return "&q%d_%d" % (k, j)
     if a["form"] == "ref":
         return "r%d" % a["ref"]
     if a["k"] == "d":
@@ -261,11 +275,7 @@ def cb_program(case, syms):
     out.append("void main() {")
     for k, c in enumerate(case["calls"]):
         pre = []
-        if c.get("ptr_arg"):
-            pre.append("  int q%d = 5;" % k)
-            args = ["&q%d" % k]
-        else:
-            args = [cb_arg_expr(k, j, a, pre) for j, a in enumerate(c["args"])]
+        args = [cb_arg_expr(k, j, a, pre) for j, a in enumerate(c["args"])]
         out += pre
         out.append('  println("B %d");' % k)
         e = "%s%s(%s)" % ((c["mod"] + ".") if c["q"] else "", c["fn"], ", ".join(args))
@@ -310,7 +320,7 @@ def model_line(case, syms):
             ds.append("%d:%s:%s%s" % (fid[fn], r, ps, (":" + rep) if rep else ""))
         ops.append("U %d %s" % (mid[m["name"]], " ".join(ds)))
     for c in case["calls"]:
-        args = ["%s:%s" % (a["k"], hex16(a["v"])) for a in c["args"]]
+        args = ["%s:%s" % (a["k"], hex16(a["v"])) for a in c["args"]]      # k = p: an address (value irrelevant to the model)
         ops.append("C %s %d %d %s" % ("q" if c["q"] else "u", mid.get(c["mod"], 0), fid[c["fn"]], " ".join(args)))
     return " ; ".join(ops), mid, fid
 
@@ -512,10 +522,9 @@ def spec_check(case, obs, syms):
                 fails.append({"call": k, "rule": "missing_never_called", "finding": None,
                               "text": "%s is not available (library/symbol/declaration missing) but a native function was entered" % c["fn"]})
             continue
-        if c.get("ptr_arg") or not marsh:
+        if not marsh:
             if called:
-                fid = "C20-float-return-cast-as-double" if r == "f" else ("C20-pointer-param-as-int" if any(t.isupper() for t in ps) else None)
-                fails.append({"call": k, "rule": "unmarshalable_called", "finding": fid,
+                fails.append({"call": k, "rule": "unmarshalable_called", "finding": None,
                               "text": "%s %s(%s) cannot be marshalled but the native function was entered (record %s)" % (CT.get(r, r), c["fn"], ps, o["called"][2])})
             elif not reported:
                 fails.append({"call": k, "rule": "silent_unsupported", "finding": None, "text": "unmarshalable signature neither called nor reported"})
@@ -526,8 +535,7 @@ def spec_check(case, obs, syms):
             continue
         if not called:
             if not reported:
-                fid = "C20-unqualified-unsupported-silent" if not c["q"] else ("C20-void-unsupported-silent" if r == "v" else None)
-                fails.append({"call": k, "rule": "silent_unsupported", "finding": fid,
+                fails.append({"call": k, "rule": "silent_unsupported", "finding": None,
                               "text": "%s %s(%s): no native call and no diagnostic/exit (result %s, rc %s)" % (CT[r], c["fn"], ps, o["res"], obs.get("rc"))})
             continue
         rec = o["called"][2]
@@ -538,8 +546,7 @@ def spec_check(case, obs, syms):
             continue
         for j, (g, w) in enumerate(zip(rec_args, want)):
             if w is not None and g != w:
-                fid = "C20-int-arg-to-double-param" if (ps[j] == "d" and c["args"][j]["k"] != "d" and g == "d:" + "0" * 16) else None
-                fails.append({"call": k, "rule": "arg_value", "finding": fid, "pos": j,
+                fails.append({"call": k, "rule": "arg_value", "finding": None, "pos": j,
                               "text": "%s argument %d (%s-typed %s) arrived as %s, demanded %s" % (
                                   c["fn"], j, CT[c["args"][j]["k"]], hex16(c["args"][j]["v"]), g, w)})
         if o["res"][0] in ("v", "d", "void"):
@@ -557,6 +564,9 @@ def spec_check(case, obs, syms):
 def mk_arg(rng, t, k, v=None, typed=None):
     """argument for a parameter of type t. typed: force the Cb type of the expression."""
     kind = typed or t
+    if t == "d" and typed is None and v is None and rng.random() < 0.25:
+        kind = rng.choice(["i", "l"])
+        v = rng.choice(INT_BOUND + WIDE_INT + [rng.randint(-2**53, 2**53), rng.getrandbits(64) - 2**63, rng.randint(-1000, 1000)])
     if kind == "d":
         if v is None:
             v = rand_dbl(rng)
@@ -732,7 +742,7 @@ def echo_expected(syms, call):
     rec = []
     for t, a in zip(ps, call["args"]):
         w = spec_arg(t, a)
-        if w is None or (t == "d" and a["k"] != "d"):
+        if w is None:
             return None
         rec.append(w)
     res = echo_py(r, reply, rec)
@@ -740,16 +750,21 @@ def echo_expected(syms, call):
 
 
 def unsupported_cases(g, seed, tier, sample=None):
-    """every signature of arity 0-4 over {int,long,double} x {int,long,double,void} outside the table: one program each."""
+    """every signature of arity 0-4 over {int,long,double} x {int,long,double,void} outside the table, on the
+    qualified AND the unqualified path; every float-returning and pointer-taking declaration of the library:
+    one program each (each must end with the diagnostic and exit 1 without entering the library)."""
     cases = []
     sup = set(g.sup)
     allsigs = [(r, ps) for ps in all_param_lists() for r in "ildv" if (r, ps) not in sup]
-    for idx, (r, ps) in enumerate(allsigs):
-        rng = rng_for(seed, "c20-unsup", idx)
-        args = [mk_arg(rng, t, j) for j, t in enumerate(ps)]
-        origin = "unsupported-void(known-domain)" if r == "v" else "unsupported"
-        c = g.case(origin, [{"q": True, "mod": "echo", "fn": "e_%s_%s" % (r, ps), "args": args, "use": "var"}])
-        cases.append(c)
+    extra = [(r, ps) for (r, ps, _) in [g.syms[n] for n in sorted(g.syms) if g.syms[n][0] == "f" or any(t.isupper() for t in g.syms[n][1])]]
+    for idx, (r, ps) in enumerate(allsigs + extra):
+        for q in (True, False):
+            rng = rng_for(seed, "c20-unsup", idx, q)
+            args = [({"k": "p", "base": t.lower(), "v": 0, "form": "ptr"} if t.isupper() else mk_arg(rng, t, j)) for j, t in enumerate(ps)]
+            origin = "unsupported" if (r, ps) in allsigs else "unmarshalable-declaration"
+            c = g.case(origin + ("" if q else "-unqualified"),
+                       [{"q": q, "mod": "echo", "fn": "e_%s_%s" % (r, ps), "args": args, "use": "var", "decl_mod": "echo"}])
+            cases.append(c)
     return cases, len(allsigs)
 
 
@@ -788,23 +803,21 @@ def misc_cases(g, seed, tier):
     return [c for c in cases if c]
 
 
-def known_domain_cases(g, seed, tier):
-    """inputs inside the domain of a known finding: the model mirrors the defect, so Mech = impl is still checked."""
+def int_to_double_cases(g, seed, tier):
+    """integer-typed expressions for double parameters (DESIGN.md section 7 #30, repaired by 0c197b6): boundary
+    integers at every double position of every supported signature, both paths."""
     cases = []
-    rng = rng_for(seed, "c20-known")
+    rng = rng_for(seed, "c20-i2d")
     for (r, ps) in g.sup:
-        if "d" in ps:
-            for v in [2, 0, -1, 2**31 - 1, 10**15]:
-                args = [mk_arg(rng, t, j) for j, t in enumerate(ps)]
-                pos = ps.index("d")
+        for pos, t in enumerate(ps):
+            if t != "d":
+                continue
+            calls = []
+            for v in [2, 0, -1, 2**31 - 1, -2**31, 10**15, 2**53 - 1, -(2**53 - 1), 2**53 + 1, 2**63 - 1, -2**63]:
+                args = [mk_arg(rng, tt, j) for j, tt in enumerate(ps)]
                 args[pos] = mk_arg(rng, "d", pos, v, typed=rng.choice(["i", "l"]))
-                cases.append(g.case("int-arg-to-double(known-domain)", [{"q": True, "mod": "echo", "fn": "e_%s_%s" % (r, ps), "args": args, "use": "var"}]))
-    sup = set(g.sup)
-    allsigs = [(r, ps) for ps in all_param_lists(2) for r in "ildv" if (r, ps) not in sup]
-    for (r, ps) in allsigs:
-        args = [mk_arg(rng, t, j) for j, t in enumerate(ps)]
-        cases.append(g.case("unqualified-unsupported(known-domain)",
-                            [{"q": False, "mod": "echo", "fn": "e_%s_%s" % (r, ps), "args": args, "use": "var", "decl_mod": "echo"}]))
+                calls.append({"q": rng.random() < 0.7, "mod": "echo", "fn": "e_%s_%s" % (r, ps), "args": args, "use": "var", "decl_mod": "echo"})
+            cases.append(g.case("int-arg-to-double", calls))
     return [c for c in cases if c]
 
 
@@ -896,32 +909,33 @@ def model_supported():
 
 
 def report_bad(rep, results, impl_dir, echo_dir, syms, budget=6):
-    """Disagreements model/impl and property failures not explained by a known finding -> VIOLATION (shrunk to one call)."""
-    known_ids = {f["id"] for f in common.known_findings(PROP)}
+    """Disagreements model/impl and property failures not explained by a listed known finding -> VIOLATION
+    (shrunk to one call). known_findings/C20.json lists none at present: every failure is a violation."""
+    kfs = {f["id"]: f for f in common.known_findings(PROP)}
+
+    def unexplained(r):
+        return [f for f in r["spec"] if f["finding"] not in kfs]
     n = 0
     for r in results:
-        unexplained = [f for f in r["spec"] if not (f["finding"] in known_ids and "known-domain" in r["case"]["origin"])]
         for f in r["spec"]:
-            if f["finding"] in known_ids and "known-domain" in r["case"]["origin"]:
-                kf = next(x for x in common.known_findings(PROP) if x["id"] == f["finding"])
-                rep.known(kf["id"], kf["what_fails"])
-        if r["agree"] and not unexplained:
+            if f["finding"] in kfs:
+                rep.known(f["finding"], kfs[f["finding"]]["what_fails"])
+        if r["agree"] and not unexplained(r):
             continue
         n += 1
         if n > budget:
             continue
-        # shrink: single calls
         small = r
         if len(r["case"]["calls"]) > 1:
             subs = run_cases(split_case(r["case"]), impl_dir, echo_dir, syms)
-            bad = [s for s in subs if (not s["agree"]) or [f for f in s["spec"] if f["finding"] not in known_ids or "known-domain" not in r["case"]["origin"]]]
+            bad = [s for s in subs if (not s["agree"]) or unexplained(s)]
             if bad:
                 bad.sort(key=lambda s: (not s["spec"], len(s["case"]["calls"])))
                 small = bad[0]
-        unexplained = [f for f in small["spec"] if not (f["finding"] in known_ids and "known-domain" in small["case"]["origin"])]
-        if unexplained:
+        un = unexplained(small)
+        if un:
             rep.violation("spec" if small["agree"] else "corr", payload(small, syms),
-                          "foreign call violates the property: " + unexplained[0]["text"] +
+                          "foreign call violates the property: " + un[0]["text"] +
                           ("" if small["agree"] else " (and the proved model disagrees with the implementation)"),
                           no_failing_input=False)
         else:
@@ -960,11 +974,11 @@ def run(rep):
     n_unsup = 0
     for s in seeds:
         cases += supported_cases(g, rng_for(s, "c20-sup"), tier)
-        cases += random_cases(g, s, 1500 if tier == "quick" else 20000)
+        cases += random_cases(g, s, 1000 if tier == "quick" else 20000)
         u, n_unsup = unsupported_cases(g, s, tier)
         cases += u
         cases += misc_cases(g, s, tier)
-        cases += known_domain_cases(g, s, tier)
+        cases += int_to_double_cases(g, s, tier)
     cases = [c for c in cases if c]
     results = run_cases(cases, impl_dir, echo_dir, syms)
 
